@@ -45,4 +45,17 @@ func init() {
 			return js
 		},
 	})
+	register(&Plan{
+		Prop:  "C07",
+		Level: "exploration",
+		Rule: "cases = generated logger chains of depth 1-4 (own-attribute lists of 0-20 incl. empty ones at every position, set through SetAttrs/SetAttrs1/Set), 0-5 registered context keys (string and Stringer, present/absent, nil context), " +
+			"0-64 call arguments (Attr objects and key,value pairs) over a small key space so that keys collide, groups with colliding members, inherit flag on/off, all three formats; every value carries its source tag; " +
+			"the decoded ordered (dotted key, value) list must equal the reference merge (last occurrence wins, ascending order at every level). non-trivial = decoded, matched and at least one attribute; distinct = by the source lists",
+		Assumptions: []string{"the decoders of C04/C05/C06 (independent JSON walker, logfmt tokenizer, SGR stripper)"},
+		Floors:      map[string]int64{"records_decoded": 100, "records_with_13plus_attrs": 20, "inheriting_child_without_own_attrs": 5},
+		Jobs: func(tier string, seed int64) []Job {
+			n := pick(tier, 6000, 300000)
+			return chunk("main", "prod", n, pick(tier, 500, 10000), Job{Timeout: 30 * time.Minute})
+		},
+	})
 }
